@@ -49,9 +49,14 @@ func (s *Sender) Run(ctx context.Context) {
 			// TODO do backoff
 			timer := time.NewTimer(1 * time.Second)
 			for {
+				// Both channels are (re)computed on every pass: a value left over from an earlier
+				// reconnect would accept a new stream over the one being held (losing its callback),
+				// or fire for a stream which has already been completed.
 				if stream == nil {
 					sink = s.Sink
+					streamCancel = nil
 				} else {
+					sink = nil
 					streamCancel = stream.Ctx.Done()
 				}
 				select {
